@@ -163,7 +163,7 @@ func htmlEncodeStartsWith(a, b string) bool {
 		bs = append(bs, byte(cb))
 	}
 
-	return strings.Contains(string(bs), a)
+	return strings.HasPrefix(string(bs), a)
 }
 
 func isBlackURL(s string) bool {
